@@ -131,6 +131,19 @@ type op struct {
 	Data   []byte
 	Create bool
 	H      int
+	Zero   bool // write/append/trunc with no Data: the zero-length Write IS issued (deepen8; otherwise an empty Data means "no Write call")
+	Nil    bool // with Zero: Write(nil) instead of Write([]byte{})
+}
+
+// zeroTag renders the zero-length marker of an op for repro strings.
+func (o *op) zeroTag() string {
+	switch {
+	case o.Zero && o.Nil:
+		return ",Write(nil)"
+	case o.Zero:
+		return ",Write([]byte{})"
+	}
+	return ""
 }
 
 func (o *op) String() string {
@@ -140,11 +153,11 @@ func (o *op) String() string {
 	case "rename":
 		return fmt.Sprintf("rename(%q,%q)", o.Path, o.Path2)
 	case "write":
-		return fmt.Sprintf("write(%q,off=%d,len=%d,create=%v)", o.Path, o.Off, len(o.Data), o.Create)
+		return fmt.Sprintf("write(%q,off=%d,len=%d,create=%v%s)", o.Path, o.Off, len(o.Data), o.Create, o.zeroTag())
 	case "append":
-		return fmt.Sprintf("append(%q,len=%d)", o.Path, len(o.Data))
+		return fmt.Sprintf("append(%q,len=%d%s)", o.Path, len(o.Data), o.zeroTag())
 	case "trunc":
-		return fmt.Sprintf("trunc(%q,len=%d,create=%v)", o.Path, len(o.Data), o.Create)
+		return fmt.Sprintf("trunc(%q,len=%d,create=%v%s)", o.Path, len(o.Data), o.Create, o.zeroTag())
 	case "hopen":
 		return fmt.Sprintf("hopen(h%d,%q)", o.H, o.Path)
 	case "hwrite":
@@ -571,18 +584,29 @@ func (h *hist) step(o *op) bool {
 			return err
 		})
 		if opened && f != nil {
-			wr := &op{Kind: o.Kind, Path: o.Path, Off: o.Off, Data: o.Data}
+			wr := &op{Kind: o.Kind, Path: o.Path, Off: o.Off, Data: o.Data, Zero: o.Zero, Nil: o.Nil}
 			if o.Kind == "trunc" {
-				wr = &op{Kind: "write", Path: o.Path, Off: 0, Data: o.Data}
+				wr = &op{Kind: "write", Path: o.Path, Off: 0, Data: o.Data, Zero: o.Zero, Nil: o.Nil}
 			}
-			if len(o.Data) > 0 {
+			if o.Zero && len(o.Data) == 0 {
+				h.c.Stat("zero_length_write")
+				h.c.Stat("zero_length_write." + h.zeroClass(o))
+			}
+			if len(o.Data) > 0 || o.Zero {
 				call(wr, func() error {
 					if o.Kind == "write" {
 						if _, err := f.Seek(o.Off, io.SeekStart); err != nil {
 							return err
 						}
 					}
-					n, err := f.Write(o.Data)
+					buf := o.Data
+					if o.Zero && len(o.Data) == 0 {
+						buf = []byte{}
+						if o.Nil {
+							buf = nil
+						}
+					}
+					n, err := f.Write(buf)
 					if err == nil && n != len(o.Data) {
 						return fmt.Errorf("panic: Write returned n=%d, nil for %d bytes", n, len(o.Data))
 					}
@@ -709,6 +733,31 @@ func (h *hist) step(o *op) bool {
 		return false
 	}
 	return !h.reported["-"]
+}
+
+// zeroClass names where a zero-length write lands relative to the file as the reference has it
+// (after the open of the same op: O_TRUNC has emptied it, O_CREATE has made it).
+func (h *hist) zeroClass(o *op) string {
+	size := int64(0)
+	if n := h.ref.lookup(o.Path); n != nil {
+		size = int64(len(n.data))
+	}
+	off := o.Off
+	if o.Kind == "append" {
+		off = size
+	}
+	if o.Kind == "trunc" {
+		off = 0
+	}
+	switch {
+	case size == 0 && off == 0:
+		return "empty-file-at-0"
+	case off > size:
+		return "past-eof"
+	case off == size:
+		return "at-eof"
+	}
+	return "inside"
 }
 
 func (h *hist) pathOf(n *refNode) string {
@@ -919,7 +968,7 @@ func (h *hist) logSpec(sub *op, ok bool) {
 			add("t:"+sub.Path, false)
 		}
 	case "write":
-		if len(sub.Data) > 0 {
+		if len(sub.Data) > 0 || sub.Zero {
 			add(fmt.Sprintf("w:%s:%d:%d:%d", sub.Path, sub.Off, len(sub.Data), seedOf(sub.Data)), ok)
 		}
 	case "append":
